@@ -80,6 +80,11 @@ func (e *FnEnc) call(v ssa.Value, c *ssa.CallCommon, in ssa.Instruction) {
 				return
 			}
 		}
+		if name == "sort.Slice" || name == "sort.SliceStable" || name == "sort.Strings" {
+			if e.sortModel(name, c, args, in) {
+				return
+			}
+		}
 		if name == "fmt.Sprintf" && v != nil {
 			if t, ok := e.sprintfModel(c, args); ok {
 				e.setVal(v, t)
@@ -484,4 +489,111 @@ func (e *FnEnc) sprintfModel(c *ssa.CallCommon, args []Val) (string, bool) {
 		return parts[0], true
 	}
 	return sx("str.++", parts...), true
+}
+
+// sortModel: trusted contract of sort.Slice / SliceStable / Strings (A7).  The backing array is replaced by a
+// permutation of itself (witnessed by an index bijection) that is ordered by the comparator.  The comparator of
+// Slice/SliceStable is the closure's own contract, which must have a clause "ensures result == E(i, j)"; the
+// strict-weak-order precondition of the sort is generated as obligations over the elements being sorted.
+func (e *FnEnc) sortModel(name string, c *ssa.CallCommon, args []Val, in ssa.Instruction) bool {
+	s := e.sorts()
+	var slice Val
+	var sliceTy *types.Slice
+	if name == "sort.Strings" {
+		slice = args[0]
+		sliceTy = c.Args[0].Type().Underlying().(*types.Slice)
+	} else {
+		mi, ok := c.Args[0].(*ssa.MakeInterface)
+		if !ok {
+			return false
+		}
+		st, ok := mi.X.Type().Underlying().(*types.Slice)
+		if !ok {
+			return false
+		}
+		slice = e.val(mi.X)
+		sliceTy = st
+	}
+	h := s.ArrHeap(sliceTy.Elem())
+	es := s.SortOf(sliceTy.Elem())
+	ref, n := sx("sref", slice.T), sx("slen", slice.T)
+	oldH := e.heap(h)
+	oldArr := e.define("sort.old", "(Array Int "+es+")", sx("select", oldH, ref))
+	newArr := e.declare("sort.new", "(Array Int "+es+")")
+	pi := e.declare("sort.pi", "(Array Int Int)")
+	pinv := e.declare("sort.pinv", "(Array Int Int)")
+	e.setHeap(h, ite(sx("=", ref, "0"), oldH, sx("store", oldH, ref, newArr)))
+	inr := func(x string) string { return and(sx("<=", "0", x), sx("<", x, n)) }
+	e.assume(fmt.Sprintf("(forall ((i!s Int)) (! (=> %s (and %s (= (select %s i!s) (select %s (select %s i!s))) (= (select %s (select %s i!s)) i!s))) :pattern ((select %s i!s))))",
+		inr("i!s"), inr(sx("select", pi, "i!s")), newArr, oldArr, pi, pinv, pi, newArr))
+	e.assume(fmt.Sprintf("(forall ((j!s Int)) (! (=> %s (and %s (= (select %s (select %s j!s)) j!s))) :pattern ((select %s j!s))))",
+		inr("j!s"), inr(sx("select", pinv, "j!s")), pi, pinv, oldArr))
+	e.note("A7 trusted contract: " + name + " (result is a permutation of the input, ordered by the comparator; requires a strict weak order)")
+	if name == "sort.Strings" {
+		e.assume(fmt.Sprintf("(forall ((i!s Int) (j!s Int)) (=> (and (<= 0 i!s) (< i!s j!s) (< j!s %s)) (str.<= (select %s i!s) (select %s j!s))))", n, newArr, newArr))
+		return true
+	}
+	mk := e.closureOf(c.Args[1])
+	if mk == nil {
+		e.abstract(name + " with a comparator that is not a function literal")
+		return true
+	}
+	fn := mk.Fn.(*ssa.Function)
+	con := e.W.ContractFor(fn)
+	var lessExpr Expr
+	if con != nil {
+		for _, cl := range con.Ensures {
+			if b, ok := cl.Expr.(*EBinary); ok && (b.Op == "==" || b.Op == "<==>") {
+				if id, ok := b.X.(*EIdent); ok && id.Name == "result" {
+					lessExpr = b.Y
+				}
+			}
+		}
+	}
+	if lessExpr == nil {
+		e.abstract(name + ": comparator has no contract of the form 'ensures result == E'")
+		return true
+	}
+	e.calleeUsed[con.Pkg+"::"+con.Name] = true
+	less := func(st State, a, b string) (string, error) {
+		env := &Env{e: e, st: st, old: st, vars: map[string]Val{}, guard: e.curGuard}
+		if fn.Parent() != nil && fn.Parent().Pkg != nil {
+			env.pkg = fn.Parent().Pkg.Pkg
+		}
+		for k, fv := range fn.FreeVars {
+			env.vars[fv.Name()] = e.val(mk.Bindings[k])
+		}
+		env.vars[fn.Params[0].Name()] = Val{T: a, Ty: tInt}
+		env.vars[fn.Params[1].Name()] = Val{T: b, Ty: tInt}
+		v, err := env.EvalVal(lessExpr)
+		return v.T, err
+	}
+	pre := copyState(e.cur)
+	pre[h.Name] = oldH
+	// strict weak order over the elements being sorted (pre-state)
+	lab, err := less(pre, "a!s", "b!s")
+	if err != nil {
+		e.bindFail("sort.less", err.Error())
+		return true
+	}
+	lba, _ := less(pre, "b!s", "a!s")
+	lbc, _ := less(pre, "b!s", "c!s")
+	lac, _ := less(pre, "a!s", "c!s")
+	lcb, _ := less(pre, "c!s", "b!s")
+	lca, _ := less(pre, "c!s", "a!s")
+	laa, _ := less(pre, "a!s", "a!s")
+	rng := and(inr("a!s"), inr("b!s"), inr("c!s"))
+	pos := e.posOf(in)
+	e.oblige(&Obligation{Name: "call.sort.less.irreflexive@" + pos, Kind: "pre", Clause: "comparator is irreflexive on the elements sorted", Guard: e.curGuard,
+		Goal: fmt.Sprintf("(forall ((a!s Int)) (=> %s (not %s)))", inr("a!s"), laa), Pos: pos})
+	e.oblige(&Obligation{Name: "call.sort.less.transitive@" + pos, Kind: "pre", Clause: "comparator is transitive on the elements sorted", Guard: e.curGuard,
+		Goal: fmt.Sprintf("(forall ((a!s Int) (b!s Int) (c!s Int)) (=> (and %s %s %s) %s))", rng, lab, lbc, lac), Pos: pos})
+	e.oblige(&Obligation{Name: "call.sort.less.incomparability-transitive@" + pos, Kind: "pre", Clause: "incomparability under the comparator is transitive (strict weak order)", Guard: e.curGuard,
+		Goal: fmt.Sprintf("(forall ((a!s Int) (b!s Int) (c!s Int)) (=> (and %s (not %s) (not %s) (not %s) (not %s)) (and (not %s) (not %s))))", rng, lab, lba, lbc, lcb, lac, lca), Pos: pos})
+	// sortedness in the post-state
+	lji, err := less(e.cur, "j!s", "i!s")
+	if err == nil {
+		e.assume(fmt.Sprintf("(forall ((i!s Int) (j!s Int)) (=> (and (<= 0 i!s) (< i!s j!s) (< j!s %s)) (not %s)))", n, lji))
+	}
+	return true
 }
